@@ -102,7 +102,8 @@ func DeBlobProgramCode(data []byte) (_ Program, _ ExitReason) {
 	}
 	data = data[dataUsed:]
 
-	if jumpTableLength*jumpTableSize >= 1<<32 {
+	// the count itself is bounded first: with |j| (jumpTableSize) < 2^32 and z (jumpTableLength) < 2^8 the product below cannot wrap around 2^64
+	if jumpTableSize >= 1<<32 || jumpTableLength*jumpTableSize >= 1<<32 {
 		pvmLogger.Errorf("jump table size %d bits exceed litmit of 32 bits", jumpTableLength*jumpTableSize)
 		return Program{}, ExitPanic
 		// panic("the jump table's size is supposed to be at most 32 bits")
